@@ -57,7 +57,16 @@ pub fn scenarios(thorough: bool) -> Vec<Scenario> {
     mv.mints = false;
     mv.per_denom = 1;
     mv.max_txs_per_block = 3;
-    v.push(sc("custom02-liquidity-tokens-moved-and-claimed-twice", NetID::Custom02, 0, mv, if thorough { 7 } else { 6 }));
+    v.push(sc("custom02-liquidity-tokens-moved-and-claimed-twice", NetID::Custom02, 0, mv.clone(), if thorough { 7 } else { 6 }));
+    // with fees, hostile members (a transfer that pays too little, ...) and refusals followed: what a refused attempt to move
+    // liquidity tokens leaves behind is met by the next seal
+    let mut fr = mv;
+    fr.adversarial = true;
+    fr.pairs = false;
+    fr.max_txs_per_block = 2;
+    let mut frs = sc("custom02-fees-liquidity-tokens-refusals-followed", NetID::Custom02, 65536, fr, if thorough { 7 } else { 6 });
+    frs.follow_rejected = true;
+    v.push(frs);
     v.extend(genesis_scenarios(["custom02-genesis-sym-feepool-stake", "custom02-genesis-erg-fees-stakes", "custom02-genesis-huge-mel-feepool"], NetID::Custom02, &cfg_liquidity(), if thorough { 8 } else { 6 }));
     if thorough {
         v.push(sc("testnet-liquidity", NetID::Testnet, 0, cfg_liquidity(), 8));
